@@ -25,20 +25,11 @@ namespace CedarGo
 
 /-! ## §1 values -/
 
-mutual
-/-- the value is, or contains (inside records / sets, at any depth), an ignore marker -/
-def Value.hasIgnore : Value → Bool
-  | .entity ty _ => ty == ignoreEntityType
-  | .record kvs => Value.hasIgnoreKVs kvs
-  | .set xs => Value.hasIgnoreList xs
-  | _ => false
-def Value.hasIgnoreKVs : List (String × Value) → Bool
-  | [] => false
-  | (_, x) :: rest => Value.hasIgnore x || Value.hasIgnoreKVs rest
-def Value.hasIgnoreList : List Value → Bool
-  | [] => false
-  | x :: xs => Value.hasIgnore x || Value.hasIgnoreList xs
-end
+-- `Value.hasIgnore` / `hasIgnoreKVs` / `hasIgnoreList` are defined with the model (`CedarGo/Model/Partial.lean`:
+-- `PR.whole` consults `Value.ignInside`).
+
+theorem ignInside_of_hasIgnore {v : Value} (h : v.hasIgnore = false) : v.ignInside = false := by
+  cases v <;> first | rfl | exact h
 
 /-- attributes and tags of the entity carry no ignore marker -/
 def EntityData.noIgnore (d : EntityData) : Bool := !Value.hasIgnoreKVs d.attrs && !Value.hasIgnoreKVs d.tags
@@ -574,6 +565,11 @@ theorem whole_inv {p : PR} (h : Inv p) : Inv p.whole := by
   cases p with
   | ok e =>
     cases e <;> simp only [PR.whole] <;> try exact h
+    rename_i v
+    have hv : v.ignInside = false := ignInside_of_hasIgnore (by
+      have := h.1; simpa [Expr.noIgnoreLits] using this)
+    rw [hv]
+    simp only [Bool.false_eq_true, if_false]
     split
     · trivial
     · exact h
